@@ -284,13 +284,13 @@ def from_limbs(l):
 
 def run(ctx):
     # quick: ordered pairs over both families (4-address blocks), ordered triples over the v4 block; thorough adds pairs over
-    # 8-address blocks, triples over the v6 block and triples over the 8-address v4 block
+    # 8-address blocks and triples over the v6 block (MC_IpAcl_deep.cfg, triples over the 8-address v4 block, is kept for manual
+    # runs: ~1 CPU-hour)
     A.mc(ctx, 'MC_IpAcl.tla', 'MC_IpAcl_pairs2.cfg', timeout=3000)
     A.mc(ctx, 'MC_IpAcl.tla', 'MC_IpAcl_triples4.cfg', timeout=3000)
     if ctx.thorough:
         A.mc(ctx, 'MC_IpAcl.tla', 'MC_IpAcl.cfg', timeout=3000)
         A.mc(ctx, 'MC_IpAcl.tla', 'MC_IpAcl_triples6.cfg', timeout=3000)
-        A.mc(ctx, 'MC_IpAcl.tla', 'MC_IpAcl_deep.cfg', timeout=7200)
     derr = design_errors(ctx)
     kinds = {}
     for d in derr:
